@@ -225,6 +225,29 @@ int main(int argc, char** argv) {
         }
       }
       ev_s("]"); }
+    /* assign: a view of the same kind built from other arguments, then assigned from this one, iterates like this one */
+    { var ty = type_of(v); volatile var w = NULL; volatile int has = 0; const char* ax = "";
+      ev_key("asg"); ev_s("[");
+      if (!nofail && (ty == Range || ty == Slice || ty == Zip)) {
+        try {
+          w = ty == Range ? (var)new(Range, $I(2)) : ty == Slice ? (var)new(Slice, new(Array, Int, $I(1), $I(2), $I(3)), $I(1)) : (var)new(Zip);
+          assign(w, v); has = 1;
+          size_t k = 0; var it = iter_init(w); while (it != Terminal && k < lim) { if (k) ev_s(","); item(it); k++; it = iter_next(w, it); }
+        } catch (e) { ax = exc_name(e); }
+      }
+      ev_s("]"); ev_int("hasasg", has); ev_str("asgexc", ax);
+      /* show: a Range / Slice of Ints lists its items between brackets, in iteration order */
+      ev_key("shown"); ev_s("["); has = 0;
+      if (!nofail && unit == 1 && (ty == Range || ty == Slice)) {
+        var t = new(String, $S("")); int ok = 1;
+        try { show_to(v, t, 0); } catch (e) { ok = 0; }
+        char* b = ok ? strchr(c_str(t), '[') : NULL; char* e2 = b ? strrchr(b, ']') : NULL;
+        if (b && e2) {
+          int tuples = 0; for (char* q = b + 1; q < e2; q++) if (*q == '(' || *q == '<' || *q == '[') tuples = 1;
+          if (!tuples) { has = 1; int k = 0; char* q = b + 1; while (q < e2) { char* r; long long x = strtoll(q, &r, 10); if (r == q) { has = 0; break; } if (k++) ev_s(","); ev_i(x); q = r; while (q < e2 && (*q == ',' || *q == ' ')) q++; } }
+        }
+      }
+      ev_s("]"); ev_int("hasshown", has); }
     ev_str("exc", exc); ev_str("phase", "iter"); ev_int("line", cur_line);
     ev_end();
     v = NULL;
